@@ -55,7 +55,9 @@ void add_terminals(std::set<Grammar::Symbol> &to,
 
 void Grammar::calculateFirstSets() {
   bool changed = true;
-  first_sets.insert(std::make_pair(Symbol::Epsilon(), std::set<Symbol>{}));
+  // FIRST(epsilon) = {epsilon}: an explicit epsilon in a right side or in a
+  // string handed to first() vanishes instead of blocking
+  first_sets[Symbol::Epsilon()] = std::set<Symbol>{Symbol::Epsilon()};
   max_used_terminal = 0;
   while (changed) {  // repeat until nothing changes:
     changed = false;
